@@ -6,6 +6,7 @@ package rtcp
 import (
 	"encoding/binary"
 	"fmt"
+	"math"
 )
 
 // A ReceiverReport (RR) packet provides reception quality feedback for an RTP stream
@@ -74,6 +75,11 @@ func (r ReceiverReport) Marshal() ([]byte, error) {
 
 	if len(r.Reports) > countMax {
 		return nil, errTooManyReports
+	}
+
+	// the header length field counts 32-bit words (minus one) in 16 bits
+	if r.MarshalSize() > 4*(math.MaxUint16+1) {
+		return nil, errWrongMarshalSize
 	}
 
 	pe := make([]byte, len(r.ProfileExtensions))
